@@ -3,4 +3,4 @@ from . import session
 FAMILIES = [('desync', 1.0), ('glitch', 0.8)]
 
 def main(ctx):
-    session.run(ctx, "C09", FAMILIES, quick_count=100, thorough_count=4000, prop_mod=None)
+    session.run(ctx, "C09", FAMILIES, quick_count=100, thorough_count=4000, prop_mod=session.PROP_MODS.get("C09"))
